@@ -124,6 +124,11 @@ impl<T: Read + Seek> PagedReader<T> {
         Ok(())
     }
 
+    /// Size of the file without the checksums.
+    pub fn logical_size(&self) -> u64 {
+        self.log_file_size
+    }
+
     /// Do some skipping to next 4-byte-aligned offset, if needed.
     pub fn align(&mut self) -> Result<()> {
         let off_alignment = self.offset % 4;
